@@ -83,6 +83,7 @@ theorem SysInv.exec {sys : Sys} (h : SysInv sys) (a : Action) (hf : a.fresh = tr
       (h.threads t ht).sameUsages (.deleteRes _ g k n p lo po st)
   | gcU n => exact h.envStep (h.store.gcUsage n) fun t ht => (h.threads t ht).gcUsage h.store n
   | gcR g k n => exact h.envStep (h.store.gcRes g k n) fun t ht => (h.threads t ht).sameUsages (.gcRes _ g k n)
+  | xa n c => exact h.envStep (h.store.reapplyUsage n c) fun t ht => (h.threads t ht).reapplyUsage h.store n c
   | start n =>
     simp only [Sys.exec]
     split
